@@ -105,15 +105,47 @@ def is_struct_string(body, t, root_term_check):
     t = strip(t)
     if t[0] == "local":
         return False, "value is a variable with several definitions (_%d)" % t[1], None
-    if not (t[0] == "call" and t[1] == "std::ops::Add::add" and len(t[2]) == 2):
-        return False, "value is %s, not HEADER + rendering" % term_s(t)[:100], None
-    left = strip(t[2][0], mir.VALUE_PRESERVING)
-    right = strip(t[2][1], mir.VALUE_PRESERVING)
-    if not (left[0] == "const" and left[1] == HEADER):
-        return False, "left operand is %s, not the header %r" % (term_s(left)[:80], HEADER), None
-    if not (right[0] == "call" and right[1].endswith("Element::to_serde_struct")):
-        return False, "right operand is %s, not root.to_serde_struct(&options)" % term_s(right)[:80], None
-    return True, "HEADER.to_owned() + &root.to_serde_struct(&options)", right
+    # the value as a sequence of text pieces: literals, the rendering, anything else.  `a + &b`, format!("..{}..", a, b)
+    # and to_owned/to_string/as_str/deref of a piece are concatenations/identities on text (Display of str is verbatim)
+    pieces = _text_pieces(t, 0)
+    merged = []
+    for p in pieces:
+        if p[0] == "lit" and merged and merged[-1][0] == "lit":
+            merged[-1] = ("lit", merged[-1][1] + p[1])
+        elif not (p[0] == "lit" and p[1] == ""):
+            merged.append(p)
+    if len(merged) == 2 and merged[0] == ("lit", HEADER) and merged[1][0] == "render":
+        return True, "the header literal followed by root.to_serde_struct(&options), nothing else", merged[1][1]
+    return False, "value is %s, not HEADER + rendering" % " ++ ".join(repr(p[1])[:40] if p[0] == "lit" else ("<rendering>" if p[0] == "render" else term_s(p[1])[:40]) for p in merged)[:160], None
+
+
+def _text_pieces(t, depth):
+    t = strip(t, mir.VALUE_PRESERVING + ("std::hint::must_use", "std::string::String::as_str", "std::borrow::Cow::into_owned"))
+    if depth > 6:
+        return [("other", t)]
+    if t[0] == "const" and isinstance(t[1], str):
+        return [("lit", t[1])]
+    if t[0] == "call" and t[1] == "std::ops::Add::add" and len(t[2]) == 2:
+        return _text_pieces(t[2][0], depth + 1) + _text_pieces(t[2][1], depth + 1)
+    if t[0] == "call" and t[1].endswith("Element::to_serde_struct"):
+        return [("render", t)]
+    f = fmt.format_of(t)
+    if f is not None:
+        out = []
+        args = list(f[1])
+        k = 0
+        for p in f[0]:
+            if isinstance(p, str):
+                out.append(("lit", p))
+            else:
+                idx = p[1] if isinstance(p, tuple) and len(p) > 1 and isinstance(p[1], int) else k
+                opts = p[2] if isinstance(p, tuple) and len(p) > 2 else None
+                if idx >= len(args) or args[idx][0] != "display" or opts:
+                    return [("other", t)]       # width/precision/debug: not the text itself
+                out += _text_pieces(args[idx][1], depth + 1)
+                k = idx + 1
+        return out
+    return [("other", t)]
 
 
 def run(ctx):
@@ -432,15 +464,35 @@ def check_options(r, run_b, render_site, sfx):
         return
     stages = {}
     other = []
+
+    def is_preset(t):
+        t = strip(t)
+        return t[0] == "call" and t[1] in ("std::convert::Into::into", "std::convert::From::from") and len(t[2]) == 1 and _is_field(t[2][0], "parser")
+
+    def derive_stage(d, t):
+        """t = Options::derive(receiver, list): receiver is the options variable itself (preset assigned before) or the preset
+        conversion written in place (`Options::from(parser).derive(list)`)"""
+        stages["derive"] = d
+        a = t[2]
+        dv = strip(a[1], mir.VALUE_PRESERVING) if len(a) > 1 else ("none",)
+        stages["derive_arg_ok"] = _is_field(dv, "derive")
+        recv = strip(a[0])
+        if recv[0] == "local" and recv[1] == l:
+            stages["derive_self_ok"] = True
+        elif is_preset(recv):
+            stages["derive_self_ok"] = True
+            stages["preset"] = d
+        else:
+            stages["derive_self_ok"] = False
     for d in defs:
         n = d.node
         if d.si is None:  # call dest
             nm = cname(n)
-            a0 = strip(term_of(run_b, n["args"][0])) if n["args"] else ("none",)
-            if nm in ("std::convert::Into::into", "std::convert::From::from") and _is_field(a0, "parser"):
+            t = ("call", nm, [term_of(run_b, a) for a in n["args"]], d)
+            if is_preset(t):
                 stages["preset"] = d
             elif nm.endswith("Options::derive"):
-                stages["derive"] = d
+                derive_stage(d, t)
             else:
                 other.append(d)
         elif n["k"] == "assign":
@@ -456,11 +508,9 @@ def check_options(r, run_b, render_site, sfx):
             else:
                 t = strip(term_of(run_b, n["rv"]["op"])) if n["rv"]["k"] == "use" else ("x",)
                 if t[0] == "call" and t[1].endswith("Options::derive"):
-                    stages["derive"] = d
-                    a = t[2]
-                    dv = strip(a[1], mir.VALUE_PRESERVING) if len(a) > 1 else ("none",)
-                    stages["derive_arg_ok"] = _is_field(dv, "derive")
-                    stages["derive_self_ok"] = strip(a[0])[0] == "local" and strip(a[0])[1] == l
+                    derive_stage(d, t)
+                elif is_preset(t):
+                    stages["preset"] = d
                 else:
                     other.append(d)
     ok = all(k in stages for k in ("preset", "derive", "sort")) and not other and stages.get("derive_arg_ok") and stages.get("derive_self_ok")
